@@ -7,6 +7,7 @@ from contextlib import contextmanager
 from mir import AnchorMissing
 
 VERIF = os.path.dirname(os.path.dirname(os.path.abspath(__file__)))
+EVDIR = os.environ.get('VERIF_EVIDENCE_DIR') or os.path.join(VERIF, 'evidence')
 
 
 class Inst:
@@ -105,12 +106,12 @@ def finish(ctx, floors, tier, seed, t0, extra=None, level_text='', quiet=False):
             kf.append(i)
         else:
             viol.append(i)
-    os.makedirs(os.path.join(VERIF, 'evidence', 'violations'), exist_ok=True)
+    os.makedirs(os.path.join(EVDIR, 'violations'), exist_ok=True)
     lines = []
     for i in kf:
         lines.append('KNOWN-FINDING: property=%s %s [%s]' % (prop, known_open[i.key]['what'], i.key))
     for n_, i in enumerate(viol):
-        rp = os.path.join(VERIF, 'evidence', 'violations', '%s-%d.json' % (prop, n_))
+        rp = os.path.join(EVDIR, 'violations', '%s-%d.json' % (prop, n_))
         with open(rp, 'w') as f:
             json.dump({'property': prop, 'instance': i.as_json(), 'facts': ctx.facts.path}, f, indent=1)
         lines.append('VIOLATION property=%s replay=%s' % (prop, rp))
@@ -152,7 +153,7 @@ def finish(ctx, floors, tier, seed, t0, extra=None, level_text='', quiet=False):
     }
     if extra:
         ev['coverage'].update(extra)
-    with open(os.path.join(VERIF, 'evidence', '%s.json' % prop), 'w') as f:
+    with open(os.path.join(EVDIR, '%s.json' % prop), 'w') as f:
         json.dump(ev, f, indent=1)
     if not quiet:
         print('%s: %d rule instances over %d functions; %d hold, %d known finding(s), %d violation(s)'
